@@ -40,6 +40,9 @@ type CertSpec struct {
 	Serial int64
 	Issuer string   // "ca" | "other"
 	CDP    []string // location paths ("/a") or absolute URLs
+	// LeafOnly: the verified chain consists of the client certificate alone (it is itself in the
+	// server's trust pool)
+	LeafOnly bool
 }
 
 type World struct {
@@ -178,6 +181,9 @@ func (w *World) Provision() error {
 
 func (w *World) chainFor(cert string) []*x509.Certificate {
 	l := w.Certs[cert]
+	if w.CertSp[cert].LeafOnly {
+		return []*x509.Certificate{l.Cert}
+	}
 	iss := w.caBy(w.CertSp[cert].Issuer)
 	return []*x509.Certificate{l.Cert, iss.Cert, w.Root.Cert}
 }
